@@ -31,7 +31,8 @@ def run_tract(toks, rows_of, enc_elem):
     ops: tnew:<elems> ('-' = Tractogram()), tadd:i:j, tiadd:i:j, tcopy:i, tget:i:<idx>,
     tset:i:k:v / tsetp:i:k:v / tsetm:i:k:v (element k of streamlines / data_per_point['c'] /
     data_per_streamline['m']),
-    tsets:i:<idx>:v / tsetsp:i:<idx>:v, tiop:i:<fn> / tiopp:i:<fn> (in-place arithmetic), tdrop:i.
+    tsets:i:<idx>:v / tsetsp:i:<idx>:v, tiop:i:<fn> / tiopp:i:<fn> (in-place arithmetic),
+    taff:i:<k> (apply_affine of a translation by k), tdrop:i.
     A streamline row of value v is [v, v, v]; its per-point datum is v + 1000, the per-streamline
     datum 'm' is first value + 5000."""
     import operator
@@ -113,6 +114,10 @@ def run_tract(toks, rows_of, enc_elem):
                 s_ = ts[int(f[1])].data_per_point['c']
                 fn_apply(s_, f[2])
                 del s_
+            elif o == 'taff':
+                aff = np.eye(4)
+                aff[:3, 3] = int(f[2])
+                ts[int(f[1])].apply_affine(aff)       # lazy=False: "performed in-place"
             elif o == 'tdrop':
                 ts[int(f[1])] = None
             else:
@@ -146,9 +151,29 @@ def main():
     def enc_elem(vals):
         return 'e' if not vals else '.'.join(str(v) for v in vals)
 
+    CAT_BASE = 100003
+    width = [None]        # first trailing dim of the elements of the current history
+
     def rows_of(x):
-        """one integer per row of an element array; '?' when a row is not constant/integral"""
+        """one integer per row of an element array; '?' when a row is not constant/integral.  A row
+        of a concatenate(axis=1) result (k blocks of the history's width) is coded positionally:
+        v0 + B*(v1 + B*(v2 ...)), as coq/C15/Model.v:zip_rows does."""
         x = np.asarray(x)
+        w = width[0]
+        if w and x.ndim >= 2 and x.shape[1] > w and x.shape[1] % w == 0:
+            k = x.shape[1] // w
+            parts = [rows_of(x[:, b * w:(b + 1) * w]) for b in range(k)]
+            out = []
+            for r in range(x.shape[0]):
+                vals = [p[r] for p in parts]
+                if any(v == '?' for v in vals):
+                    out.append('?')
+                    continue
+                acc = 0
+                for v in reversed(vals):
+                    acc = v + CAT_BASE * acc
+                out.append(acc)
+            return out
         out = []
         for r in range(x.shape[0]):
             row = x[r].reshape(-1)
@@ -192,10 +217,12 @@ def main():
         if not toks:
             continue
         if toks[1] == 'T':
+            width[0] = None
             run_tract(toks, rows_of, enc_elem)
             continue
         hid, shape, kind = toks[0], toks[1], toks[2]
         cs = tuple(int(d) for d in shape.split('x'))
+        width[0] = cs[0]
         nrow = int(np.prod(cs))
 
         def dt(bpr):
@@ -330,22 +357,7 @@ def main():
                 elif o == 'gett':
                     seqs.append(seqs[int(f[1])][index(f[2]), int(f[3]):int(f[4])])
                 elif o == 'cat1':
-                    ops_ = [seqs[int(j)] for j in f[1].split(',')]
-                    flags = ''.join(
-                        '1' if (int(t._data.shape[0]) == int(np.sum(t._lengths)) and
-                                [int(x) for x in t._offsets] == [int(x) for x in np.cumsum([0] + [int(y) for y in t._lengths])[:-1]])
-                        else '0' for t in ops_)
-                    try:
-                        want = [np.concatenate([np.asarray(t[k]) for t in ops_], axis=1) for k in range(len(ops_[0]))]
-                        r = concatenate(ops_, axis=1)
-                        got = [np.asarray(x) for x in r]
-                        good = len(got) == len(want) and all(a.shape == b.shape and np.array_equal(a, b)
-                                                             for a, b in zip(got, want))
-                        res = ('ok:good' if good else 'ok:bad') + '|c=' + flags
-                        del r, got, want
-                    except ValueError:
-                        res = 'err:Value|c=' + flags
-                    del ops_
+                    seqs.append(concatenate([seqs[int(j)] for j in f[1].split(',')], axis=1))
                 else:
                     res = 'err:BadOp'
             except IndexError:
